@@ -4,6 +4,7 @@ import (
 	"bufio"
 	"encoding/json"
 	"os"
+	"strconv"
 	"testing"
 	"time"
 )
@@ -73,6 +74,12 @@ func TestWorker(t *testing.T) {
 		t.Fatal(err)
 	}
 	defer f.Close()
+	hb := spec.Out + ".hb"
+	n := 0
+	Heartbeat = func() {
+		n++
+		_ = os.WriteFile(hb, []byte(strconv.Itoa(n)), 0o644)
+	}
 	bw := bufio.NewWriter(f)
 	defer bw.Flush()
 	enc := json.NewEncoder(bw)
